@@ -59,7 +59,144 @@ fn all_ops(s: &str, panics: &Mutex<Vec<Value>>) -> u64 {
     calls
 }
 
+// ---- deep inputs: long runs of one character next to contextual characters, on a thread with a small stack ----------
+// "never panics, ABORTS ...": a stack overflow cannot be caught, it takes the process down.  The cases therefore run in
+// a child process that records the case it is about to execute in a side file; the parent turns the death of the child
+// into a reported case and restarts it behind that case.
+const DEEP_FILLERS: [(u32, bool); 19] = [
+    (0x64b, false), (0x300, false), (0x94d, false), (0x200d, false), (0x200c, false), (0x20, false), (0xa0, false), (0x3000, false), (0x61, false),
+    (0x41, false), (0x661, true), (0x6f1, true), (0x30fb, true), (0xb7, false), (0x5d0, false), (0x1100, false), (0x1161, false), (0xff21, false), (0x130, false),
+];
+const DEEP_FRAMES: [(&str, &str); 7] = [
+    ("\u{628}", "\u{200c}\u{628}"), ("\u{628}\u{200c}", "\u{628}"), ("a", "b"), ("", ""), ("\u{915}\u{94d}\u{200d}", "a"), ("l\u{b7}l", "\u{30ab}"), ("\u{30ab}\u{30fb}", "\u{5d0}"),
+];
+
+fn deep_cases() -> Vec<(usize, usize)> {
+    let mut v = Vec::new();
+    for fi in 0..DEEP_FILLERS.len() {
+        for fr in 0..DEEP_FRAMES.len() {
+            // fillers whose own context rule scans the whole label make every operation quadratic: two frames only
+            if DEEP_FILLERS[fi].1 && fr > 1 {
+                continue;
+            }
+            v.push((fi, fr));
+        }
+    }
+    v
+}
+
+fn deep_string(case: (usize, usize)) -> (String, usize, usize) {
+    let (cp, quadratic) = DEEP_FILLERS[case.0];
+    let (pre, post) = DEEP_FRAMES[case.1];
+    let n = if quadratic { 6144 } else { 16384 };
+    let mut s = String::from(pre);
+    s.extend(std::iter::repeat(char::from_u32(cp).unwrap()).take(n));
+    s.push_str(post);
+    (s, pre.chars().count(), n)
+}
+
+fn deep_child(args: &[String]) {
+    use std::os::unix::fs::FileExt;
+    silence_panics();
+    let progress = arg_value(args, "--progress").unwrap_or_else(|| tool_error("--progress"));
+    let from = arg_u64(args, "--from", 0) as usize;
+    let f = std::fs::OpenOptions::new().create(true).write(true).open(&progress).unwrap_or_else(|e| tool_error(&e.to_string()));
+    let h = std::thread::Builder::new()
+        .stack_size(192 * 1024)
+        .spawn(move || {
+            silence_panics();
+            let panics = Mutex::new(Vec::new());
+            let mut calls = 0u64;
+            for (idx, case) in deep_cases().into_iter().enumerate().skip(from) {
+                let _ = f.write_at(&((idx + 1) as u64).to_le_bytes(), 0);
+                let (s, pre, n) = deep_string(case);
+                let args = [s.clone()];
+                let mut note = |what: Value, r: &Value| {
+                    if r.get("panic").is_some() {
+                        panics.lock().unwrap().push(json!({"op": what, "deep_case": [DEEP_FILLERS[case.0].0, DEEP_FRAMES[case.1].0, DEEP_FRAMES[case.1].1], "run": n, "res": r}));
+                    }
+                };
+                for p in PROFILES.iter() {
+                    for op in ["prepare", "enforce"].iter().chain(RULES.iter()) {
+                        let (r, _) = call_profile_full(p, "inst", op, ArgKind::Str, &args);
+                        note(json!([p, op]), &r);
+                        calls += 1;
+                    }
+                    let r = call_profile(p, "compare", &[s.clone(), s.clone()]);
+                    note(json!([p, "compare"]), &r);
+                    calls += 1;
+                }
+                for cls in ["Id", "Ff"] {
+                    let r = call_allows(cls, &s);
+                    note(json!([cls, "allows"]), &r);
+                    calls += 1;
+                }
+                let total = s.chars().count();
+                for rule in CTX_RULES.iter() {
+                    for off in [0, pre.saturating_sub(1), pre, pre + 1, pre + n / 2, pre + n - 1, pre + n, pre + n + 1, total.saturating_sub(1), total] {
+                        let r = call_ctx(rule, &s, off);
+                        note(json!([rule, off as u64]), &r);
+                        calls += 1;
+                    }
+                }
+            }
+            let _ = f.write_at(&0u64.to_le_bytes(), 0);
+            let p = panics.lock().unwrap();
+            println!("{}", json!({"deep": {"calls": calls, "panics": p.clone()}}));
+        })
+        .unwrap_or_else(|e| tool_error(&e.to_string()));
+    h.join().unwrap_or_else(|_| tool_error("deep thread died"));
+}
+
+/// returns (calls, cases, reported problems)
+fn deep_parent(scratch: &str) -> (u64, usize, Vec<Value>) {
+    std::fs::create_dir_all(scratch).ok();
+    let progress = format!("{}/deep-progress", scratch);
+    let exe = std::env::current_exe().unwrap_or_else(|e| tool_error(&e.to_string()));
+    let cases = deep_cases();
+    let mut from = 0usize;
+    let mut calls = 0u64;
+    let mut problems = Vec::new();
+    while from < cases.len() && problems.len() < 3 {
+        std::fs::remove_file(&progress).ok();
+        let out = std::process::Command::new(&exe)
+            .args(["c01sweep", "--deep-child", "--progress", &progress, "--from", &from.to_string()])
+            .output()
+            .unwrap_or_else(|e| tool_error(&e.to_string()));
+        let text = String::from_utf8_lossy(&out.stdout).to_string();
+        if out.status.success() {
+            let last = text.split('\n').filter(|l| !l.is_empty()).last().unwrap_or("");
+            let v: Value = serde_json::from_str(last).unwrap_or_else(|_| tool_error("deep child output"));
+            calls += v["deep"]["calls"].as_u64().unwrap_or(0);
+            for p in v["deep"]["panics"].as_array().cloned().unwrap_or_default() {
+                problems.push(p);
+            }
+            break;
+        }
+        if out.status.code() == Some(2) {
+            tool_error(&format!("deep child: {}", String::from_utf8_lossy(&out.stderr)));
+        }
+        // killed (stack overflow -> SIGABRT / SIGSEGV): which case was it executing?
+        let idx = std::fs::read(&progress).ok().filter(|b| b.len() >= 8).map(|b| u64::from_le_bytes([b[0], b[1], b[2], b[3], b[4], b[5], b[6], b[7]]) as usize).unwrap_or(0);
+        if idx == 0 {
+            tool_error(&format!("deep child died without a progress record: {:?} {}", out.status, String::from_utf8_lossy(&out.stderr)));
+        }
+        let case = cases[idx - 1];
+        let err = String::from_utf8_lossy(&out.stderr).to_string();
+        problems.push(json!({"op": "one of the public operations (the process was taken down, the call did not return)",
+                             "deep_case": {"filler": DEEP_FILLERS[case.0].0, "before": string_to_cps(DEEP_FRAMES[case.1].0), "after": string_to_cps(DEEP_FRAMES[case.1].1),
+                                           "run_length": deep_string(case).2, "thread_stack_bytes": 192 * 1024},
+                             "res": {"panic": format!("process died: {:?}; {}", out.status, err.trim().chars().rev().take(160).collect::<String>().chars().rev().collect::<String>())}}));
+        from = idx;
+    }
+    std::fs::remove_file(&progress).ok();
+    (calls, cases.len(), problems)
+}
+
 pub fn main(args: &[String]) {
+    if args.iter().any(|a| a == "--deep-child") {
+        return deep_child(args);
+    }
     silence_panics();
     let db = arg_value(args, "--oracle").unwrap_or_else(|| tool_error("--oracle"));
     let max_len = arg_u64(args, "--max-len", 4) as usize;
@@ -159,9 +296,17 @@ pub fn main(args: &[String]) {
         }
         let _ = guarded(|| json!(registered_rule(cp)));
     }
+    let mut deep = json!({"checked": false});
+    if let Some(scratch) = arg_value(args, "--scratch") {
+        let (c, n, problems) = deep_parent(&scratch);
+        deep = json!({"checked": true, "cases": n, "calls": c, "problems": problems.len(), "run_lengths": [6144, 16384], "thread_stack_bytes": 192 * 1024});
+        for x in problems {
+            panics.lock().unwrap().push(x);
+        }
+    }
     let p = panics.lock().unwrap();
     for x in p.iter() {
         println!("{}", json!({ "panic": x }));
     }
-    println!("{}", json!({"summary": {"strings": strings, "exhaustive_strings": total, "calls": calls + cls_calls, "panics": p.len(), "alphabet": ALPHABET, "max_len": max_len}}));
+    println!("{}", json!({"summary": {"strings": strings, "exhaustive_strings": total, "calls": calls + cls_calls, "panics": p.len(), "alphabet": ALPHABET, "max_len": max_len, "deep": deep}}));
 }
